@@ -6,7 +6,7 @@ import re
 
 TAG_DATA = re.compile(r"d(\d+)c(\d+)")
 TAG_HDR = re.compile(r"H(\d+)c(\d+)")
-TAG_COL = re.compile(r"N(\d+)")
+TAG_COL = re.compile(r"\s*[Nn](\d+)\s*")      # (column names may be decorated with blanks / other case)
 TAG_GRP = re.compile(r"G(\d+)v(\d+)")
 TAG_SB = re.compile(r"SB(\d+)x(\d+)")
 DIVIDER = "-----"
@@ -158,6 +158,22 @@ def row_role(texts: list[str]) -> str | None:
     if all(TAG_COL.fullmatch(t) for t in texts):
         return "header_auto"
     return None
+
+
+def extra_roles(spec):
+    """heading / subline texts of a single-table spec whose group values do not follow the sentinel scheme
+    (numbers, near-divider strings, free-form labels): for page_roles(..., extra)"""
+    body = spec.get("body", {})
+    cols = spec["df"]["cols"]
+    names = [c["name"] for c in cols]
+    out = {"heading": set(), "subline_by": set()}
+    for c in body.get("page_by") or []:
+        out["heading"] |= {display(v) for v in cols[names.index(c)]["values"]} - {DIVIDER}
+    sbc = body.get("subline_by") or []
+    if sbc and cols:
+        n = len(cols[0]["values"])
+        out["subline_by"] = {", ".join(display(cols[names.index(c)]["values"][r]) for c in sbc) for r in range(n)}
+    return out
 
 
 def page_roles(page, extra=None):
